@@ -362,6 +362,30 @@ def _entries(soup: Any, page: str, site: Dict[str, Any], indexpage: bool = False
                     else a.find_parent("span")
                 if holder is not None:
                     add(prod, a, _has_private(holder), under_private(holder))
+    # items whose name is NOT a link (taglink() may refuse to link): identified by the name they display.
+    # moduleIndex shows short names nested by package, the root list of index.html shows full names.
+    if page == "moduleIndex":
+        def walk(ul: Any, prefix: str) -> None:
+            for li in ul.find_all("li", recursive=False):
+                code = li.find("code", recursive=False)
+                if code is None:
+                    continue
+                name = prefix + code.get_text().strip()
+                if code.find("a") is None:
+                    site["entries"].append({"page": page, "kind": "moduleIndex", "file": "", "frag": "", "ref": name,
+                                            "private": _has_private(li), "under_private": under_private(li)})
+                sub = li.find("ul", recursive=False)
+                if sub is not None:
+                    walk(sub, name + ".")
+        tree = soup.find("ul", id="summaryTree")
+        if tree is not None:
+            walk(tree, "")
+    if indexpage:
+        for li in soup.find_all("li"):
+            code = li.find("code", recursive=False)
+            if code is not None and code.find("a") is None and li.find("a") is None:
+                site["entries"].append({"page": page, "kind": "indexRoots", "file": "", "frag": "", "ref": code.get_text().strip(),
+                                        "private": False, "under_private": under_private(li)})
 
 
 # ----------------------------------------------------------------------------------- one job = one real site
